@@ -413,8 +413,8 @@ static void xts_call(int f, int ks, int dec, int expanded, int tw, size_t len, i
 }
 static void xts_sweep(void)
 {
-	size_t *lens = malloc(sizeof(size_t) * 3000); int nl = 0;
-	size_t maxl = (secrets_mode || pair_mode) ? (vk_thorough ? 1100 : 300) : 1100;
+	size_t *lens = malloc(sizeof(size_t) * 6000); int nl = 0;
+	size_t maxl = (secrets_mode || pair_mode) ? (vk_thorough ? 1100 : 300) : (DATA_MAX > SMALL_MAX ? 4056 : 1100);   /* thorough functional: every length up to 4 KiB */
 	for (size_t l = 0; l <= maxl; l++) lens[nl++] = l;
 	for (size_t l = 4096 - 40; l <= 4096 + 40; l++) if (!secrets_mode || l % 16 < 2) lens[nl++] = l;
 	if (vk_thorough && !secrets_mode && !pair_mode) { lens[nl++] = 65536; lens[nl++] = 65551; }
@@ -546,8 +546,8 @@ static void cbc_call(int dec, int f, int ks, size_t len, int place, size_t midof
 }
 static void cbc_sweep(void)
 {
-	size_t lens[200]; int nl = 0;
-	int maxn = (secrets_mode || pair_mode) ? 40 : 70;
+	size_t lens[600]; int nl = 0;
+	int maxn = (secrets_mode || pair_mode) ? 40 : (vk_thorough && !guard_mode) ? 300 : 70;
 	/* zero length is in C08's domain (a multiple of 16 the API accepts) */
 	if (guard_mode) lens[nl++] = 0;
 	for (int n = 1; n <= maxn; n++) lens[nl++] = 16 * n;
@@ -595,7 +595,7 @@ static void keyexp_sweep(void)
 {
 	static const int kb[3] = { 128, 192, 256 };
 	static const char *fams[2] = { "sse", "avx" };
-	int nkeys = vk_want_trace ? 2 : vk_thorough ? 600 : 120;
+	int nkeys = vk_want_trace ? 2 : vk_thorough ? 6000 : 120;
 	if (secrets_mode || pair_mode) nkeys = 24;
 	int item = 0;
 	for (int ki = 0; ki < nkeys; ki++) for (int ks = 0; ks < 3; ks++) for (int f = 0; f < 2; f++) for (int enc_only = 0; enc_only < 2; enc_only++) {
